@@ -713,6 +713,35 @@ def order_check(case):
                         nontrivial=nontriv)
     if vals["ns"] > 1 + eps:
         return viol(f"non-signaling value {vals['ns']:.6f} > 1", site="order:ns<=1", observed=vals, nontrivial=nontriv)
+    # trivial cap valid for ANY strategy: sum_xy pi(x,y) max_ab V(a,b|x,y)  (added after seeded change C07-3)
+    A_, B_ = len(pred_r), len(pred_r[0])
+    X_, Y_ = len(prob_r), len(prob_r[0])
+    cap = float(sum(prob_r[x][y] * max(pred_r[a][b][x][y] for a in range(A_) for b in range(B_)) for x in range(X_) for y in range(Y_)))
+    for name, val in vals.items():
+        if val > cap + eps:
+            return viol(f"{name} = {val:.6f} exceeds the trivial cap sum_xy pi(x,y) max_ab V(a,b|x,y) = {cap:.6f}", site=f"order:{name.split(':')[0]}<=cap",
+                        observed=vals, expected=cap, nontrivial=nontriv)
+    if reps == 1:
+        # scaling relation: halving every predicate entry halves every value (exposes an objective that ignores the VALUES of V)
+        half = [[[[pred[a][b][x][y] / 2 for y in range(Y_)] for x in range(X_)] for b in range(B_)] for a in range(A_)]
+        g2, exc = call(NonlocalGame, to_np(prob), to_np(half), 1)
+        if exc is not None:
+            return viol("constructor raised on the halved predicate: " + exc_text(exc), site="NonlocalGame:exception")
+        c2, exc = call(g2.classical_value)
+        if exc is not None or abs(float(c2) - vals["classical"] / 2) > FLOAT_TOL:
+            return viol(f"classical value of the halved game {c2!r} != half of {vals['classical']!r}", site="order:halved:classical", observed=repr(c2),
+                        expected=vals["classical"] / 2, nontrivial=nontriv)
+        n2, exc = call(g2.commuting_measurement_value_upper_bound, 1)
+        ncalls += 2
+        if exc is not None:
+            if _solver_failure(exc):
+                return indet("NPA level 1 of the halved game: solver failure " + exc_text(exc))
+            return viol("NPA level 1 raised on the halved game: " + exc_text(exc), site="npa:exception")
+        if n2 is None or not np.isfinite(n2):
+            return indet(f"NPA level 1 of the halved game: solver returned {n2!r}")
+        if abs(float(n2) - vals["npa:1"] / 2) > eps:
+            return viol(f"NPA level 1 of the halved game = {float(n2):.6f}, half of the original = {vals['npa:1'] / 2:.6f}", site="order:halved:npa",
+                        observed=float(n2), expected=vals["npa:1"] / 2, nontrivial=nontriv)
     if vals["classical"] > 1 + FLOAT_TOL or min(vals.values()) < -eps:
         return viol("a value lies outside [0, 1]", site="order:range", observed=vals, nontrivial=nontriv)
     return ok(nontriv, obs=[round(vals[k], 9) for k in sorted(vals)], calls=ncalls, values=vals)
